@@ -40,6 +40,14 @@ class ClassSource:
         return it
 
 
+class ClassSourceWithClose(ClassSource):
+    """Class-based iterator whose aclose() returns a truthy value."""
+
+    async def aclose(self):
+        self.log.append(("closed",))
+        return True
+
+
 def gen_source(items, log, gate=None):
     async def gen():
         log.append(("open",))
@@ -140,13 +148,15 @@ def run(tier):
             for _i in range(nev):
                 ev = dgen.obj("Query", 4)
                 ev.pop("__typename", None)
-                events.append(ev)
+                events.append(ev if rng.random() > 0.12 else None)
+            sub_root = dgen.obj("Query", 3)
+            sub_root.pop("__typename", None)
             fail_at = rng.choice([None, None, None] + list(range(nev + 1)))
             items = list(events)
             if fail_at is not None:
                 items = items[:fail_at] + [SourceBoom("source broke")]
             expected_events = events if fail_at is None else events[:fail_at]
-            kind = rng.choice(["gen", "gen", "class"])
+            kind = rng.choice(["gen", "gen", "class", "class-aclose"])
             timing = rng.choice(["eager", "gated", "lagging"])
             # ---- per-event oracle: implementation execute_sync and the Spec model
             try:
@@ -177,9 +187,10 @@ def run(tier):
                     elif timing == "lagging":
                         await asyncio.sleep(0)
 
-                src = gen_source(items, log, gate) if kind == "gen" else ClassSource(items, log, gate)
+                src = (gen_source(items, log, gate) if kind == "gen" else
+                       ClassSource(items, log, gate) if kind == "class" else ClassSourceWithClose(items, log, gate))
                 clog = []
-                res = subscribe(schema, sdoc, variable_values=variables,
+                res = subscribe(schema, sdoc, root_value=sub_root, variable_values=variables,
                                 subscribe_field_resolver=lambda _r, _i, **_a: src,
                                 field_resolver=G.make_resolver(clog))
                 if hasattr(res, "__await__"):
@@ -227,7 +238,7 @@ def run(tier):
             ncases += 1
             key = f"sub:{print_ast(sdoc)[:150]!r}:{nev}:{fail_at}:{kind}:{timing}"
             rep = {"relation": "responses = map execute(events before failure), then failure/end", "sdl": sdl_sub,
-                   "document": print_ast(sdoc), "variables": variables, "events": [G.data_to_jsonable(e) for e in events],
+                   "document": print_ast(sdoc), "variables": variables, "events": [G.data_to_jsonable(e) if e is not None else None for e in events],
                    "fail_at": fail_at, "source_kind": kind, "timing": timing}
             ck.note_case(("sub", print_ast(sdoc), nev, fail_at, kind, timing, repr(variables)), nontrivial=nev >= 2 or fail_at is not None,
                          sample={"document": print_ast(sdoc)[:200], "events": nev, "fail_at": fail_at, "timing": timing})
